@@ -29,12 +29,31 @@ def make_leaf(label):
         async def start(self):
             add_resource(object(), "default", [types[0]])  # start(): remapped by a `kind/name` alias
             add_resource(object(), "explicit", [types[1]])  # explicitly named: never remapped
+            if label == "Kid" and HARD.get("nested_start"):
+                # a component may bring up a sub-tree of its own from inside start(): that tree's
+                # components are named relative to THAT call, the outer alias suffix does not apply
+                await start_component(SubRoot, {}, timeout=None)
 
     Leaf.__name__ = Leaf.__qualname__ = f"{label}Leaf"
     return Leaf
 
 
-KidLeaf, PlainLeaf, DeepLeaf, ExtraLeaf = (make_leaf(x) for x in ("Kid", "Plain", "Deep", "Extra"))
+KidLeaf, PlainLeaf, DeepLeaf, ExtraLeaf, SubWorker = (make_leaf(x) for x in ("Kid", "Plain", "Deep", "Extra", "SubWorker"))
+
+
+class SubRoot(Component):
+    TYPES = tuple(type(f"SubRootRes{i}", (), {}) for i in range(3))
+
+    def __init__(self, **kw):
+        LOG.append(("init", "SubRoot", kw))
+        self.add_component("worker", SubWorker)
+
+    async def prepare(self):
+        add_resource(object(), "default", [self.TYPES[2]])
+
+    async def start(self):
+        add_resource(object(), "default", [self.TYPES[0]])
+        add_resource(object(), "explicit", [self.TYPES[1]])
 
 
 class Mid(Component):
@@ -91,7 +110,7 @@ def ref_merge(o, v):
 
 def params(tier):
     return [P("h1", 0, 2), P("e1", 0, 3), P("h2", 0, 2), P("e2", 0, 3), P("spelling", 0, 3), P("slash", 0, 1),
-            P("extra", 0, 2), P("deep", 0, 1), P("kidnone", 0, 1)]
+            P("extra", 0, 2), P("deep", 0, 1), P("kidnone", 0, 1), P("nestedstart", 0, 1)]
 
 
 @guard
@@ -100,6 +119,7 @@ def fn(a, tier):
     h1, e1, h2, e2 = pick(a["h1"], 3), pick(a["e1"], 4), pick(a["h2"], 3), pick(a["e2"], 4)
     spelling, slash = pick(a["spelling"], 4), pick(a["slash"], 2)
     extra, deep, kidnone = pick(a["extra"], 3), pick(a["deep"], 2), pick(a["kidnone"], 2)
+    nestedstart = pick(a["nestedstart"], 2)
     # alias: with spelling "omitted" the alias (its part before '/') must itself name the type
     base = "c14leaf" if spelling == 3 else "kid"
     alias = f"{base}/special" if slash else base
@@ -114,7 +134,7 @@ def fn(a, tier):
     if e2:
         ext_kid["k2"] = ext_val(e2, "k2")
     HARD.clear()
-    HARD.update(spelling=spelling, alias=alias, kid=hard_kid, deep={"d": {"p": 1, "q": 1}})
+    HARD.update(spelling=spelling, alias=alias, kid=hard_kid, deep={"d": {"p": 1, "q": 1}}, nested_start=nestedstart)
     components = {}
     # (a null section for a hard-coded child is not generated: the statement reserves None for
     # config-only children, and merge_config's "None replaces a dict" would apply otherwise)
@@ -137,7 +157,7 @@ def fn(a, tier):
         async def main():
             async with Context() as ctx:
                 await start_component(Root, config, timeout=None)
-                out["names"] = {cls.__name__: [sorted(ctx.get_resources(t)) for t in cls.TYPES] for cls in (KidLeaf, PlainLeaf, DeepLeaf, ExtraLeaf)}
+                out["names"] = {cls.__name__: [sorted(ctx.get_resources(t)) for t in cls.TYPES] for cls in (KidLeaf, PlainLeaf, DeepLeaf, ExtraLeaf, SubRoot, SubWorker)}
 
         _, exc, _k = run(main)
         return copy.deepcopy(LOG), out, exc
@@ -147,7 +167,7 @@ def fn(a, tier):
     log2, out2, exc2 = one_run()
     summary = {"hard_coded": {k: HARD_KINDS[v] for k, v in (("k1", h1), ("k2", h2))}, "external": {k: EXT_KINDS[v] for k, v in (("k1", e1), ("k2", e2))},
                "child_alias": alias, "type_given_as": SPELL[spelling], "config_only_child": ["none", "dict with a class type", "None, type from alias 'c14extra/cfgonly'"][extra],
-               "external_grandchild_config": bool(deep), "alias_absent_from_external_config": bool(kidnone and not ext_kid)}
+               "external_grandchild_config": bool(deep), "kid_starts_a_subtree_from_its_start": bool(nestedstart), "alias_absent_from_external_config": bool(kidnone and not ext_kid)}
     if exc1 is not None:
         return FAIL(f"start-failed:{type(exc1).__name__}:spelling={SPELL[spelling]}", repr(exc1), summary)
     if not unchanged_after_first or config != pristine:
@@ -164,6 +184,9 @@ def fn(a, tier):
         exp["Extra"] = [{"n": 5}]
     elif extra == 2:
         exp["Extra"] = [{}]
+    if nestedstart:
+        exp["SubRoot"] = [{}]
+        exp["SubWorker"] = [{}]
     if inits != exp:
         bad = sorted(k for k in set(inits) | set(exp) if inits.get(k) != exp.get(k))
         return FAIL(f"constructor-kwargs:{bad}:h1={HARD_KINDS[h1]}:e1={EXT_KINDS[e1]}:h2={HARD_KINDS[h2]}:e2={EXT_KINDS[e2]}:deep={deep}",
@@ -175,6 +198,8 @@ def fn(a, tier):
         "PlainLeaf": [["default"], ["explicit"], ["default"]],
         "DeepLeaf": [["default"], ["explicit"], ["default"]],
         "ExtraLeaf": [[], [], []] if extra == 0 else [["viaconfig" if extra == 1 else "cfgonly"], ["explicit"], ["default"]],
+        "SubRoot": [["default"], ["explicit"], ["default"]] if nestedstart else [[], [], []],
+        "SubWorkerLeaf": [["default"], ["explicit"], ["default"]] if nestedstart else [[], [], []],
     }
     if names != exp_names:
         bad = sorted(k for k in names if names[k] != exp_names[k])
@@ -187,10 +212,10 @@ H = Harness(
     name="G-config",
     fn=fn,
     params=params,
-    cube=lambda tier: 3,
+    cube=lambda tier: 4,
     title="hard-coded add_component() kwargs vs external components configuration at two depths; type spellings; aliases; config reuse",
     bound_text=lambda tier: "2 kwargs keys: hard-coded {absent, scalar, nested dict} x external {absent, scalar, None, nested dict}; child type given as {"
-    + ", ".join(SPELL) + "}; alias with/without '/name'; config-only child {none, dict with class type, None with type from alias}; external config for a grandchild; alias present with an empty dict or absent",
+    + ", ".join(SPELL) + "}; alias with/without '/name'; config-only child {none, dict with class type, None with type from alias}; external config for a grandchild; alias present with an empty dict or absent; the child optionally starts a component sub-tree of its own from inside start()",
     oracle="kwargs received by every constructor == reference deep merge(hard-coded, external); exactly the expected components are created; "
     "start_component twice from the same config object gives identical logs and leaves the object == its deep copy; resources added as 'default' "
     "in start() appear under the alias suffix of their own component only, those from prepare() and explicitly named ones never",
